@@ -182,6 +182,44 @@ fn check_best(rep: &mut Report, idx: u64, stream: &[Elt], maxd: f32, minv: usize
     tie
 }
 
+/// Maps the small query / track ids of a stream injectively onto wide u64 ids (the stores hand out random u64 ids and users
+/// compose ids like (source << 32) | index): tracks become (hi << 32) | (100 + lo) with hi in 0..4, lo in 0..3; queries
+/// stay small, become q << 32, get the same two-part form with lo < 100, or are hashed. The two id spaces stay disjoint.
+fn widen(stream: &mut [Elt], rng: &mut Rng) {
+    let mut tmap: BTreeMap<u64, u64> = BTreeMap::new();
+    let mut qmap: BTreeMap<u64, u64> = BTreeMap::new();
+    let qshape = rng.usize(4);
+    for e in stream.iter() {
+        if !tmap.contains_key(&e.t) {
+            loop {
+                let v = ((rng.usize(4) as u64) << 32) | (100 + rng.usize(3) as u64);
+                if !tmap.values().any(|x| *x == v) {
+                    tmap.insert(e.t, v);
+                    break;
+                }
+            }
+        }
+        if !qmap.contains_key(&e.q) {
+            loop {
+                let v = match qshape {
+                    0 => e.q,
+                    1 => e.q << 32,
+                    2 => ((rng.usize(4) as u64) << 32) | (1 + rng.usize(3) as u64), // (id 0 is reserved by the Hungarian engine)
+                    _ => e.q.wrapping_mul(0x9E37_79B9_7F4A_7C15) | 1 << 63,
+                };
+                if !qmap.values().any(|x| *x == v) {
+                    qmap.insert(e.q, v);
+                    break;
+                }
+            }
+        }
+    }
+    for e in stream.iter_mut() {
+        e.q = qmap[&e.q];
+        e.t = tmap[&e.t];
+    }
+}
+
 fn permutations(n: usize) -> Vec<Vec<usize>> {
     fn rec(cur: &mut Vec<usize>, used: &mut Vec<bool>, n: usize, out: &mut Vec<Vec<usize>>) {
         if cur.len() == n {
@@ -216,7 +254,7 @@ fn canon_top(r: &TopRes, sort_inner: bool) -> Vec<(u64, Vec<(u64, i64)>)> {
 fn main() {
     let cli = Cli::parse();
     let mut rep = Report::new("C17", &cli);
-    rep.note("rule", json!("case = result stream over <= 6 queries x <= 6 tracks x 0..5 distances per pair (missing distances / missing weights included) with random N, min_votes, max_distance, threshold; every 4th case is a small stream (<= 7 elements) that is run in ALL its permutations, larger ones in 50 random permutations. TopN / BestFit / Hungarian (SortVoting) / VisualVoting outputs are compared with references written from the statement (filter <= max_distance, group, >= min_votes, weight = sum(max seen - d), order, top-N; a track goes to its greatest-weight claimant, every qualifying claim yields an element; Hungarian: every query of the stream gets one track or itself, no track twice, objective optimal) and with their own output on the permuted stream. Near-ties (weights within 1e-6 relative) downgrade the comparison and are counted. Non-trivial: at least two queries compete for one track with qualifying claims; distinct by stream hash."));
+    rep.note("rule", json!("case = result stream over <= 6 queries x <= 6 tracks x 0..5 distances per pair (missing distances / missing weights included; a quarter of the streams with wide two-part u64 ids (hi << 32) | lo) with random N, min_votes, max_distance, threshold; every 4th case is a small stream (<= 7 elements) that is run in ALL its permutations, larger ones in 50 random permutations. TopN / BestFit / Hungarian (SortVoting) / VisualVoting outputs are compared with references written from the statement (filter <= max_distance, group, >= min_votes, weight = sum(max seen - d), order, top-N; a track goes to its greatest-weight claimant, every qualifying claim yields an element; Hungarian: every query of the stream gets one track or itself, no track twice, objective optimal) and with their own output on the permuted stream. Near-ties (weights within 1e-6 relative) downgrade the comparison and are counted. Non-trivial: at least two queries compete for one track with qualifying claims; distinct by stream hash."));
     rep.note("assumptions", json!(["the tracker-specific engines (Hungarian, Visual) see disjoint query / track id spaces, as in the trackers; the generic engines (top-N, best-fit) are also run with overlapping id spaces", "finite distances >= -1 (the range of the library's own euclidean / cosine functions; 30% of the streams contain negative distances, half of those only negative ones) and non-negative positional weights", "a weight is the real-number sum over exact f32 inputs; weight values are compared, and two weights are treated as tied, within twice the rounding an f32 evaluation of the terms may introduce (votes x 2^-23 x largest magnitude in the stream)"]));
     let n = cli.cases(40_000, 400_000);
     for idx in cli.index_range(n) {
@@ -229,6 +267,11 @@ fn main() {
         // distance range: 70% non-negative (Euclidean-like), 15% all negative, 15% mixed sign in [-1, 1] (cosine-like)
         let dmode: u8 = if near_ties { 0 } else { let u = rng.uniform(0.0, 1.0); if u < 0.7 { 0 } else if u < 0.85 { 1 } else { 2 } };
         let stream = gen_stream(&mut rng, small, if overlap { 0 } else { 100 }, near_ties, dmode);
+        let mut stream = stream;
+        if !overlap && rng.chance(0.35) {
+            widen(&mut stream, &mut rng);
+            rep.count("cases_with_wide_ids(two-part u64 ids above 2^32)");
+        }
         if dmode == 1 {
             rep.count("cases_with_all_distances_negative");
         }
